@@ -19,7 +19,7 @@
    hence the suffix _partial.  See props/C13.json. *)
 From Coq Require Import List NArith Bool.
 From FS Require Import Sx Model.Path Model.SymMode Model.Copier Model.CopySpec
-  Proofs.CopierP Proofs.CopyOpsP Proofs.CopyTopP Proofs.CopyThmP Proofs.CopyFaithP Proofs.CopyEx.
+  Proofs.CopierP Proofs.CopyOpsP Proofs.CopyTopP Proofs.CopyThmP Proofs.CopyFaithP Proofs.CopyEx Proofs.CopyWildP.
 Import ListNotations.
 Open Scope N_scope.
 Open Scope bool_scope.
@@ -83,7 +83,70 @@ Theorem notifier_exact_partial :
                  exists rel s, q = L ++ rel /\ s_lookup sn rel = Some s /\ is_dir (sdent s) = true).
 Proof. exact notifier_exact_partial_proof. Qed.
 
+(* ---- several sources (AllowWildcards): the i-th match ----
+   [srcs] are the matches of the pattern in copy order ([resolve_wild]; one literal source is the
+   case srcs = [src], i = 0), [xr_landings r] / [xr_merged r] their landing paths / merged flags.
+   [apart L Lj]: neither landing path is a prefix of the other - the i-th match is not copied
+   over, into or under by another match (with colliding landings a later match merges into or
+   replaces an earlier one: that is the overlay, Properties/C15.v).
+   Then below its landing path the destination IS the i-th source tree, entry by entry
+   ([iso_at] for every relative path) - link groups and wildcards together included -, and with
+   the source's inode partition ([tree_iso]) whenever the exact partition is available (no link
+   groups, or a literal source; for wildcards with link groups the partition can split, known
+   finding hardlink-group-split-after-overwrite, Properties/C15.v). *)
+Theorem copy_into_empty_faithful_wild_partial :
+  forall o sroot, wf_src sroot -> links_consistent sroot ->
+  forall fs src dst r ms srcs i s sn L m,
+    empty_dst fs -> overlay_all o sroot (view_of_fs fs) src dst = inl r -> parse_of o = Some ms ->
+    (if o_wild o then resolve_wild sroot src else inl [src]) = inl srcs ->
+    nth_error srcs i = Some s -> s_resolve sroot (rooted s) = inl sn ->
+    nth_error (xr_landings r) i = Some L -> nth_error (xr_merged r) i = Some m ->
+    (forall j Lj, j <> i -> nth_error (xr_landings r) j = Some Lj -> apart L Lj) ->
+    landing_clear r sn L ->
+    exists st', copy_top o sel_all sroot fs src dst = (st', None) /\
+      (forall rel, iso_at o ms m sn L (view_of_fs (c_fs st')) rel = true) /\
+      (no_link_groups sroot \/ o_wild o = false -> tree_iso o ms m sn L (view_of_fs (c_fs st'))).
+Proof. exact copy_into_empty_faithful_wild_proof. Qed.
+
+(* options on the entries of the i-th match, on ANY destination *)
+Theorem copy_options_applied_wild_partial :
+  forall o sroot, wf_src sroot -> links_consistent sroot ->
+  forall fs src dst r ms srcs i s sn L m,
+    wf_fs fs -> overlay_all o sroot (view_of_fs fs) src dst = inl r -> parse_of o = Some ms ->
+    (if o_wild o then resolve_wild sroot src else inl [src]) = inl srcs ->
+    nth_error srcs i = Some s -> s_resolve sroot (rooted s) = inl sn ->
+    nth_error (xr_landings r) i = Some L -> nth_error (xr_merged r) i = Some m ->
+    (forall j Lj, j <> i -> nth_error (xr_landings r) j = Some Lj -> apart L Lj) ->
+    exists st', copy_top o sel_all sroot fs src dst = (st', None) /\
+      (forall rel s1, s_lookup sn rel = Some s1 -> (rel = [] -> m = false) ->
+         exists i1 d, view_of_fs (c_fs st') (L ++ rel) = Some (i1, d) /\
+           d_uid d = fst (info_owner o (sdent s1)) /\ d_gid d = snd (info_owner o (sdent s1)) /\
+           (is_lnk (sdent s1) = false -> perm12 d = info_mode o ms (sdent s1)) /\
+           d_mtime d = info_time o (sdent s1) /\ ftype d = copy_type (sdent s1)) /\
+      (forall p e, xr_view r p = Some e -> x_mk e = true ->
+         exists i1 d, view_of_fs (c_fs st') p = Some (i1, d) /\
+           (forall u g, o_chown o = Some (u, g) -> d_uid d = u /\ d_gid d = g) /\
+           (forall t, o_utime o = Some t -> d_mtime d = t)).
+Proof. exact copy_options_applied_wild_proof. Qed.
+
+(* the notifier for several sources (no condition on the landing paths): the notifications for
+   non-directories are, match by match and in order, the destination paths of the source
+   non-directories ([nd_paths_all]: nd_paths of the 1st match at its landing path, then of the 2nd ...) *)
+Theorem notifier_exact_wild :
+  forall o sroot, wf_src sroot -> links_consistent sroot ->
+  forall fs src dst r srcs sns,
+    wf_fs fs -> overlay_all o sroot (view_of_fs fs) src dst = inl r ->
+    (if o_wild o then resolve_wild sroot src else inl [src]) = inl srcs ->
+    Forall2 (fun s sn => s_resolve sroot (rooted s) = inl sn) srcs sns ->
+    exists st', copy_top o sel_all sroot fs src dst = (st', None) /\
+      length (xr_landings r) = length srcs /\
+      map fst (filter (fun pb => negb (snd pb)) (rev (c_notifs st'))) = nd_paths_all (xr_landings r) sns.
+Proof. exact notifier_exact_wild_proof. Qed.
+
 Print Assumptions copy_into_empty_faithful_partial.
+Print Assumptions copy_into_empty_faithful_wild_partial.
+Print Assumptions copy_options_applied_wild_partial.
+Print Assumptions notifier_exact_wild.
 Print Assumptions copy_options_applied_partial.
 Print Assumptions notifier_exact_partial.
 
@@ -169,5 +232,44 @@ Example ex_link_group :
        | Some a, Some b, Some c, Some d => N.eqb a b && N.eqb b c && negb (N.eqb a d)
        | _, _, _, _ => false end)
   | _, _ => false
+  end = true.
+Proof. vm_compute. reflexivity. Qed.
+
+(* wildcard "*" over the source with a link group into the not yet existing n/: two matches
+   (d and h) land apart at n/d and n/h; each is its source tree entry by entry; the notifier
+   reports d/f d/g d/x h in this order *)
+Example ex_wild_matches :
+  match overlay_all o_wild_on ex_src_links (view_of_fs fs_empty) [42] [110; 47],
+        copy_top o_wild_on sel_all ex_src_links fs_empty [42] [110; 47],
+        resolve_wild ex_src_links [42] with
+  | inl r, (st', None), inl [s1; s2] =>
+      (match xr_landings r, xr_merged r, s_resolve ex_src_links (rooted s1), s_resolve ex_src_links (rooted s2) with
+       | [L1; L2], [m1; m2], inl sn1, inl sn2 =>
+           apart_b L1 L2 && path_eqb L1 [[110]; n_d] && path_eqb L2 [[110]; n_h] &&
+           forallb (iso_at o_wild_on None m1 sn1 L1 (view_of_fs (c_fs st'))) [ []; [n_f]; [n_g]; [n_x]; [n_h]; [n_d] ] &&
+           forallb (iso_at o_wild_on None m2 sn2 L2 (view_of_fs (c_fs st'))) [ []; [n_f]; [n_x] ] &&
+           (match map fst (filter (fun pb => negb (snd pb)) (rev (c_notifs st'))), nd_paths_all [L1; L2] [sn1; sn2] with
+            | [q1; q2; q3; q4], [q1'; q2'; q3'; q4'] =>
+                path_eqb q1 [[110]; n_d; n_f] && path_eqb q2 [[110]; n_d; n_g] && path_eqb q3 [[110]; n_d; n_x] &&
+                path_eqb q4 [[110]; n_h] && path_eqb q1 q1' && path_eqb q2 q2' && path_eqb q3 q3' && path_eqb q4 q4'
+            | _, _ => false end)
+       | _, _, _, _ => false end)
+  | _, _, _ => false
+  end = true.
+Proof. vm_compute. reflexivity. Qed.
+
+(* ... and without link groups with the inode partition: "*" over ex_src into "/" *)
+Example ex_wild_partition :
+  match overlay_all o_wild_on ex_src (view_of_fs fs_empty) [42] s_slash,
+        copy_top o_wild_on sel_all ex_src fs_empty [42] s_slash,
+        resolve_wild ex_src [42] with
+  | inl r, (st', None), inl [s1; s2] =>
+      (match xr_landings r, xr_merged r, s_resolve ex_src (rooted s1), s_resolve ex_src (rooted s2) with
+       | [L1; L2], [m1; m2], inl sn1, inl sn2 =>
+           apart_b L1 L2 &&
+           tree_iso_b o_wild_on None m1 sn1 L1 (view_of_fs (c_fs st')) [ []; [n_f]; [n_l]; [n_x] ] &&
+           tree_iso_b o_wild_on None m2 sn2 L2 (view_of_fs (c_fs st')) [ []; [n_f] ]
+       | _, _, _, _ => false end)
+  | _, _, _ => false
   end = true.
 Proof. vm_compute. reflexivity. Qed.
